@@ -51,6 +51,26 @@ def strategy(tier):
     return kgen.programs(WEIGHTS, max_bodies=6 if big else 5, max_instrs=8, max_start=10 if big else 5, min_instrs=2, min_start=2)
 
 
+def until_strategy(tier):
+    """programs driven through numeric run(until=t) stops (due instants, grid offsets, float-inexact offsets)"""
+    from hypothesis import strategies as st
+    from . import c03
+    due = st.tuples(st.just("due"), st.integers(0, 3)).map(list)
+    btw = st.tuples(st.just("between"), st.integers(0, 3)).map(list)
+    num = st.tuples(st.just("num"), st.sampled_from([0, 1, 2, 0.5, 0.25, 0.1, 0.3, 3, -1])).map(list)
+    inx = st.tuples(st.just("inexact"), st.integers(0, 20)).map(list)
+    stp = st.tuples(st.just("step"), st.integers(1, 4)).map(list)
+    plan = st.lists(kgen.weighted([(due, 3), (num, 2), (inx, 2), (btw, 1), (stp, 1)]), min_size=3, max_size=8)
+    return st.fixed_dictionaries({"prog": strategy(tier), "plan": plan})
+
+
+def run_until(case):
+    from . import c03
+    info = c03.run_split(case)
+    classes = [c for c in info["classes"] if c in ("stop at busy instant", "stop at float-inexact offset", "illegal stop refused")]
+    return {"nontrivial": "stop at busy instant" in classes, "classes": classes}
+
+
 PROP = Property(
     "C01",
     rule=("Hypothesis-generated kernel programs (1-12 processes, <=8 instructions each: timeouts with delays from a "
@@ -59,10 +79,16 @@ PROP = Property(
           "minimum of the pending occurrences by (due, urgent-before-ordinary by event type, trigger sequence), at "
           "now == due exactly, peek()==due, now non-decreasing, nothing skipped/twice. Non-trivial = the run has an "
           "instant where an urgent occurrence was triggered after a still-pending ordinary one AND an instant with >=2 "
-          "occurrences of one class; distinct = distinct canonical JSON of the program."),
+          "occurrences of one class; distinct = distinct canonical JSON of the program. Facet until_stops: the same programs "
+          "driven through numeric run(until=t) stops (t = pending due instants, grid offsets, offsets for which now+(t-now)!=t "
+          "in floating point): the stop is a reference-agenda entry of the urgent class due at exactly t, so it must take effect "
+          "at now == t, before ordinary events of t and after everything earlier; non-trivial = a stop at an instant with other "
+          "occurrences due."),
     facets=[Facet("programs", strategy, run_case, quick=3000, thorough=20000,
                   essential=["urgent-after-normal", "same-class-tie>=2", "zero-delay chain", "float-sum instant",
-                             "negative delay refused"])],
+                             "negative delay refused"]),
+            Facet("until_stops", until_strategy, run_until, quick=1200, thorough=8000,
+                  essential=["stop at busy instant", "stop at float-inexact offset"])],
     assumptions=["every event reaches the agenda through Environment.schedule (tracing subclass overrides it)",
                  "urgent/ordinary class is derived from the event type and the harness's own run(until) flag, not from the "
                  "priority argument", "one environment per case"],
